@@ -18,7 +18,7 @@ import (
 func TestMain(m *testing.M) { ev.Main(m) }
 
 var codeGen = rapid.OneOf(
-	rapid.SampledFrom([]int{-1, 0, 100, 101, 200, 201, 204, 206, 301, 302, 304, 400, 404, 418, 500, 503, 599}),
+	rapid.SampledFrom([]int{-1, 0, 100, 101, 200, 201, 204, 206, 301, 302, 304, 400, 404, 418, 500, 503, 599, 600, 799, 999}),
 	rapid.IntRange(100, 599),
 )
 
@@ -33,12 +33,15 @@ func plainWrites(scripts ...*chain.Script) {
 			if s.Ops[i].K == chain.OpWrite {
 				s.Ops[i].N = 0
 			}
+			if s.Ops[i].K == chain.OpBlob {
+				s.Ops[i].S = "" // Context.Blob panics on a write error too
+			}
 		}
 	}
 }
 
 func genOp(t *rapid.T) chain.Op {
-	switch rapid.IntRange(0, 11).Draw(t, "op") {
+	switch rapid.IntRange(0, 12).Draw(t, "op") {
 	case 0, 1, 2:
 		return chain.Op{K: chain.OpStatus, N: codeGen.Draw(t, "code")}
 	case 3, 4, 5:
@@ -59,6 +62,9 @@ func genOp(t *rapid.T) chain.Op {
 		return chain.Op{K: chain.OpHTTPError, N: rapid.SampledFrom([]int{400, 404, 500}).Draw(t, "ecode"), S: rapid.StringMatching(`[a-z]{0,5}`).Draw(t, "emsg")}
 	case 10:
 		return chain.Op{K: chain.OpRedirect, N: rapid.SampledFrom([]int{301, 302, 307}).Draw(t, "rcode"), S: "/" + rapid.StringMatching(`[a-z]{0,3}`).Draw(t, "rurl")}
+	case 11:
+		// a response helper: status and content type, and the data - which may be empty ("only write headers")
+		return chain.Op{K: chain.OpBlob, N: rapid.SampledFrom([]int{200, 201, 404, 500}).Draw(t, "blobStatus"), S: rapid.SampledFrom([]string{"", "", "blob"}).Draw(t, "blobData")}
 	default:
 		return chain.Op{K: chain.OpRespWriteHeader, N: codeGen.Draw(t, "code")}
 	}
